@@ -284,7 +284,9 @@ pub fn server_config(crypto: Arc<dyn quinn_proto::crypto::ServerConfig>, token_s
 pub fn client_config(crypto: Arc<dyn quinn_proto::crypto::ClientConfig>, transport: Arc<TransportConfig>, dcid_seed: u64) -> ClientConfig {
     let mut c = ClientConfig::new(crypto);
     c.transport_config(transport);
-    let ctr = Mutex::new(Rng::new(dcid_seed ^ 0xD1D));
+    // (domain-separated from the CID generators: equal seeds once made a client draw the very CID a
+    // server had just issued)
+    let ctr = Mutex::new(Rng::new(crate::chooser::mix(&[dcid_seed, 0xD1D, 0x0C11_E275])));
     c.initial_dst_cid_provider(Arc::new(move || {
         let mut b = [0u8; 8];
         b.copy_from_slice(&ctr.lock().unwrap().next_u64().to_le_bytes());
